@@ -52,6 +52,19 @@ def strategy(tier, shard):
         eps_exp = draw(st.sampled_from([-6, -5, -4, -3, -2, -1.5, -1, -0.5, 0, 0.5]))
         scale = 10.0 ** draw(st.integers(-2, 3))
         eps = float(scale * 10.0 ** eps_exp)
+        if kind != "pi" and draw(st.integers(0, 6)) == 0:
+            # discount factors next to 1 on finite-horizon MDPs (value iteration becomes exactly stationary after nS sweeps,
+            # so the run converges however small eps (1-gamma)/gamma is)
+            gamma = draw(st.sampled_from([0.999, 0.99999, 0.9999999]))
+            eps = float(scale * draw(st.sampled_from([1e-2, 1e-1, 1.0])))
+            spec = draw(mdp_specs(max_states=10, min_states=2, scale=scale, chain="dag", structure=False, allow_v0=False))
+            spec["flags"] = spec["flags"] + ["finite-horizon-gamma-near-1"]
+            cfg = dict(solver=kind, gamma=gamma, eps=eps, test=draw(st.sampled_from(["span", "max_diff"])),
+                       mbs=draw(st.integers(1, spec["nS"] + 3)))
+            if kind == "sa":
+                cfg["shuffle"] = draw(st.booleans())
+                cfg["seed"] = draw(st.integers(0, 2**31 - 1))
+            return dict(spec=spec, cfg=cfg)
         # near-tie actions differ by about the size of the value error the stopping rule tolerates
         spec = draw(mdp_specs(max_states=10, min_states=1, scale=scale, tie_unit=eps * (1 - gamma)))
         nS = spec["nS"]
